@@ -108,7 +108,7 @@ struct Run {
 
 #define SMALL(X, BT) X(2,BT) X(3,BT) X(4,BT) X(5,BT) X(6,BT) X(7,BT) X(8,BT) X(9,BT)
 #define LARGE(X, BT) X(12,BT) X(15,BT) X(16,BT) X(17,BT) X(24,BT) X(31,BT) X(32,BT) X(33,BT) X(40,BT) X(63,BT) X(64,BT)
-#define HUGE_(X, BT) X(65,BT) X(127,BT) X(128,BT) X(129,BT)
+#define HUGE_(X, BT) X(65,BT) X(127,BT) X(128,BT) X(129,BT) X(192,BT) X(200,BT)
 
 int main(int argc, char** argv) {
 	if (argc < 4) { std::fprintf(stderr, "usage: h_integer exh|rnd nbits bt [count] [opset]\n"); return 2; }
@@ -120,13 +120,13 @@ int main(int argc, char** argv) {
 	uint64_t count = argc > 4 ? std::strtoull(argv[4], nullptr, 10) : 1000;
 	std::string ops = argc > 5 ? argv[5] : "all";
 	bool all = ops == "all";
-	bool nomul = ops == "nomul";
+	bool nomul = ops == "nomul" || ops == "nomulconv";  // nomulconv: additionally no size conversions (targets beyond the transcript width)
 	g_arith = all || ops == "arith" || nomul;
 	g_mul = all || ops == "arith";
 	g_div = all || ops == "div" || nomul;
 	g_shift = all || ops == "shift" || nomul;
 	g_logic = all || ops == "logic" || nomul;
-	g_conv = all || ops == "conv" || nomul;
+	g_conv = all || ops == "conv" || ops == "nomul";
 #define X(N,BT) if (n == N && bts == BtName<BT>::s) { uv::silence_stderr(); if (mode == "exh") Run<N,BT>::exhaustive(); else Run<N,BT>::random(count); return 0; }
 #if UV_BT == 0 || UV_BT == 8
 	SMALL(X, uint8_t) LARGE(X, uint8_t) HUGE_(X, uint8_t)
